@@ -146,7 +146,8 @@ func errorDiscipline(c *Ctx, rule, label string, fn *ssa.Function, po PO) {
 				if cbReturned[errT] {
 					continue
 				}
-				if p.factIs(end, atom, false) && p.HasFact(end, func(a *Term, pol bool) bool {
+				// (errors.Is(err, sentinel) == true already implies err != nil)
+				if p.HasFact(end, func(a *Term, pol bool) bool {
 					return pol && a.Op == "call" && a.Name == "errors.Is" && a.Args[0].String() == errT
 				}) {
 					continue
